@@ -276,8 +276,17 @@ func (h *verifWHist) newEvent(b *verifWBlock, tx *verifWTx, contract int, class 
 	e.cl = verifWLevels[r.below(len(verifWLevels))]
 	e.target = []int{0, 1, 2, 4, 255, 65534}[r.below(6)]
 	e.nonce = uint32(r.next())
+	e.seq = uint64(e.uid)
+	e.txid = verifWTxId(tx.n)
+	if h.fam == "fields" {
+		e.nonce = uint32(e.uid) // the observer identifies the event by its nonce: the sequence is free to take boundary values
+	}
 	sender, _ := hex.DecodeString(h.bridgeHex)
-	payload := append([]byte{1}, r.bytes(20+r.below(140))...)
+	plen := 20 + r.below(140)
+	if h.fam == "fields" {
+		plen = 3 + r.below(40) // (long payloads are generated by fieldsStage; short ones keep the Coq-side replay small)
+	}
+	payload := append([]byte{1}, r.bytes(plen)...)
 	mkAttest := func(tokId int, dec int, sym, name string, left bool) []byte {
 		p := []byte{2}
 		p = append(p, h.tokenIdBytes(tokId)...)
@@ -404,6 +413,10 @@ func (h *verifWHist) newEvent(b *verifWBlock, tx *verifWTx, contract int, class 
 			e.what = "fields permuted"
 		}
 	}
+	e.senderB = sender
+	if h.fam == "fields" {
+		f = h.fieldsStage(e, f)
+	}
 	e.fields = f
 	h.events[e.uid] = e
 	tx.events = append(tx.events, e)
@@ -498,6 +511,9 @@ func (h *verifWHist) gtFinal(e *verifWEvent, height int32, lo, hi int64) int {
 // ------------------------------------------------------------------ steps
 
 func (h *verifWHist) msgUid(m *common.MessagePublication) (int, string) {
+	if h.fam == "fields" {
+		return h.fieldsMsgUid(m)
+	}
 	e := h.events[int(m.Sequence)]
 	if e == nil || m.Sequence > 1<<30 {
 		return -1, fmt.Sprintf("forwarded message with sequence %d matches no generated event", m.Sequence)
@@ -578,7 +594,16 @@ func (h *verifWHist) stepPoll(ps *verifWPollScript) {
 	h.sim.mu.Unlock()
 	buids := []int{}
 	for _, u := range batch {
-		e := h.events[func() int { v, _ := strconv.Atoi(verifWSeqOf(u)); return v }()]
+		e := h.events[func() int {
+			if h.fam == "fields" {
+				if u == nil || u.msg == nil {
+					return -1
+				}
+				return int(u.msg.nonce)
+			}
+			v, _ := strconv.Atoi(verifWSeqOf(u))
+			return v
+		}()]
 		if e == nil {
 			buids = append(buids, -1)
 		} else {
@@ -767,6 +792,7 @@ func (h *verifWHist) stepTick(height int32, errAt map[string]int) {
 	sort.Ints(got)
 	rec := map[string]interface{}{"op": "tick", "height": height, "lo": lo, "hi": hi, "blocks": h.blockTable(), "err": errHit, "res": res, "fwd": got,
 		"enabled": h.w.blockPollerEnabled.Load()}
+	h.fieldsRec(rec, msgs, nil)
 	if len(res) > 5 && res[:5] == "panic" {
 		rec["res"] = "panic"
 		rec["panic"] = res[6:]
@@ -923,6 +949,7 @@ func (h *verifWHist) stepReobs(tx *verifWTx, errAt map[string]int, shortHash boo
 	}
 	rec := map[string]interface{}{"op": "reobs", "tx": tx.n, "short": shortHash, "chain": int(vaa.ChainIDAlephium), "txlen": len(txHash), "status": status, "events": evs, "blocks": h.blockTable(), "hderr": hdrErr, "mc": mc,
 		"height": ht, "lo": lo, "hi": hi, "res": res, "fwd": got}
+	h.fieldsRec(rec, msgs, txHash)
 	if len(res) > 5 && res[:5] == "panic" {
 		rec["res"] = "panic"
 		rec["panic"] = res[6:]
@@ -1101,7 +1128,13 @@ func (h *verifWHist) run() map[string]interface{} {
 						h.nextUid++
 						c.blk = b2
 						c.fields = append([]map[string]interface{}{}, e.fields...)
-						if len(c.fields) > 2 {
+						if h.fam == "fields" {
+							if e.uidInNonce {
+								c.fields[3] = verifWField("ByteVec", fmt.Sprintf("%08x", uint32(c.uid)))
+								c.nonce = uint32(c.uid)
+							}
+						} else if len(c.fields) > 2 {
+							c.seq = uint64(c.uid)
 							c.fields[2] = verifWField("U256", strconv.Itoa(c.uid))
 							if e.what == "fields permuted" || e.what == "sequence out of range" || e.what == "wrong field type" {
 								c.fields[2] = e.fields[2]
@@ -1170,7 +1203,11 @@ func (h *verifWHist) row() map[string]interface{} {
 			}
 			conv = map[string]interface{}{"s": e.sender, "cl": e.cl, "k": e.kind[:1], "p0": p0, "tok": tok}
 		}
-		evs = append(evs, map[string]interface{}{"uid": e.uid, "blk": e.blk.id, "tx": e.tx, "c": e.contract, "idx": e.index, "conv": conv, "what": e.what})
+		erow := map[string]interface{}{"uid": e.uid, "blk": e.blk.id, "tx": e.tx, "c": e.contract, "idx": e.index, "conv": conv, "what": e.what}
+		if h.fam == "fields" {
+			h.fieldsEventRow(erow, e)
+		}
+		evs = append(evs, erow)
 	}
 	toks := []interface{}{}
 	for _, id := range h.tokIds {
@@ -1198,7 +1235,11 @@ func (h *verifWHist) row() map[string]interface{} {
 			}
 			ans = l
 		}
-		toks = append(toks, map[string]interface{}{"id": id, "ans": ans, "shape": mc.shape})
+		trow := map[string]interface{}{"id": id, "ans": ans, "shape": mc.shape}
+		if h.fam == "fields" {
+			h.fieldsTokenRow(trow, id, mc)
+		}
+		toks = append(toks, trow)
 	}
 	logU := []int{}
 	for _, e := range h.sim.log {
@@ -1208,7 +1249,7 @@ func (h *verifWHist) row() map[string]interface{} {
 		h.flag("C08", "bad-request", "unexpected request at the simulated node: "+h.sim.badReq[0])
 	}
 	return map[string]interface{}{"k": "hist", "id": h.id, "fam": h.fam, "mainnet": h.mainnet, "from0": h.from0, "events": evs, "tokens": toks, "log": logU,
-		"steps": h.steps, "mon": h.mon, "ambiguous": h.ambiguous, "ms": time.Since(h.t0).Milliseconds(), "requests": h.sim.nreqTotal}
+		"steps": h.steps, "mon": h.mon, "ambiguous": h.ambiguous, "ms": time.Since(h.t0).Milliseconds(), "requests": h.sim.nreqTotal, "bridge": h.bridgeHex}
 }
 
 var _ = big.NewInt
@@ -1254,6 +1295,7 @@ func TestVerifWatcher(t *testing.T) {
 		}(i)
 	}
 	wg.Wait()
+	verifWFieldsHistories(out, seed, &wg, sem)
 	out.emitNow(map[string]interface{}{"k": "progress", "phase": "histories-done", "n": n})
 	if os.Getenv("VERIF_W_NFH") != "0" {
 		verifWFetchHeightRows(out)
